@@ -141,4 +141,299 @@ STE_UNIT = Unit("C20.set_trickery_enabled", LL + "set_trickery_enabled", ste_set
                 bindings=dict(STD_BINDINGS), methods=dict(STD_METHODS),
                 assumptions=["_can_use_trickery is a module global: one cell shared by all threads; threading.Lock is a mutex"])
 
-UNITS = [CAF_UNIT, STE_UNIT]
+
+# ------------------------------------------------------------------------------------------------ _contexts_active_by_referents
+from pyvc.exec import str_contains  # noqa: E402
+REF = LL + "_contexts_active_by_referents"
+register_class("ExitingContext")
+register_class("method")
+
+
+def ref_setup(ex, p):
+    frame = sym_ref(p, "frame", "frame")
+    origin = sym_any(p, "origin")
+    refs_of = {}
+    def get_referents(ex_, p_, args, kw, node):
+        r = sym_seq(p_, "referents", "list")
+        p_.ghost["referents_root"] = args[0].t
+        H0 = p_.snap()
+        # a bound method object has a function with a str __name__
+        p_.add_schema(r.t, lambda pth, j: Implies(And(j >= H0.lo_(r.t), j < H0.hi_(r.t), is_kind(H0.raw(r.t, j), "method")),
+                                                  And(Val.is_ref(H0.getf(H0.raw(r.t, j), "__func__")), Val.a(H0.getf(H0.raw(r.t, j), "__func__")) >= 0,
+                                                      is_exact_kind(H0.getf(H0.getf(H0.raw(r.t, j), "__func__"), "__name__"), "str"))))
+        p_.ghost["referents"] = r.t
+        return [("ok", p_, r)]
+    def cec(ex_, p_, args, kw, node):
+        x = fresh("exiting")
+        p_.pc.append(Or(Val.is_none(x), And(is_kind(x, "ExitingContext"), Val.a(x) >= 0, Val.is_boolv(p_.getf(x, "is_async")))))
+        p_.ghost["exiting"] = x
+        p_.ghost["exiting_arg"] = args[0].t
+        return [("ok", p_, SV(x))]
+    ex.unit.bindings["gc.get_referents"] = get_referents
+    ex.unit.bindings["currently_exiting_context"] = cec
+    p.env.update(frame=frame, origin=origin)
+    return dict(frame=frame, origin=origin)
+
+
+def ref_inv():
+    def ghost_havoc(ctx):
+        ctx.p.ghost["ctx_made"] = ()
+    def qf(ctx):
+        return And(ctx.v("ret") == ctx.v0("ret"), ctx.H.length(ctx.v("ret")) >= 0, ctx.H.lo_(ctx.v("ret")) == 0)
+    def step(ctx):
+        g = ctx.p.ghost.get("head:for#1")
+        Hh = g[0]
+        ret = ctx.v("ret")
+        r = ctx.v("referent")
+        H = ctx.H
+        name = H.getf(H.getf(r, "__func__"), "__name__")
+        ex = ctx.ex
+        is_exit_method = And(is_kind(r, "method"), Or(ex.eq(ctx.p, SV(name), ex.const(ctx.p, "__exit__")), ex.eq(ctx.p, SV(name), ex.const(ctx.p, "__aexit__"))))
+        n0, n1 = Hh.length(ret), H.length(ret)
+        new = H.at(ret, n1 - 1)
+        # exactly the bound methods named __exit__ / __aexit__ contribute one Context each, in referent order
+        return If(is_exit_method,
+                  And(n1 == n0 + 1, is_kind(new, "Context"), H.getf(new, "obj") == H.getf(r, "__self__"),
+                      H.getf(new, "is_async") == mkbool(str_contains(name, ex.const(ctx.p, "a").t)), H.getf(new, "is_exiting") == mkbool(False)),
+                  n1 == n0)
+    return Inv("C20.referents.scan", qf=qf, ghost_havoc=ghost_havoc, steps=[("C20.referents.one_context_per_exit_method", step)], conts=["ret"])
+
+
+def ref_post(ctx):
+    H = ctx.H
+    a = ctx.args
+    g = ctx.p.ghost
+    ret = ctx.result.t
+    x = g["exiting"]
+    n = H.length(ret)
+    last = H.at(ret, n - 1)
+    owner = If(genlike(a["origin"].t), a["origin"].t, a["frame"].t) if tuple(ctx.ex.cfg["version"])[:2] >= (3, 11) else a["frame"].t
+    root_ok = g["referents_root"] == owner      # 3.11+: the generator object, not the frame, owns the references
+    n_scan = ctx.p.ghost["exit:for#1"][0].length(ret) if "exit:for#1" in ctx.p.ghost else None
+    return And(root_ok, g["exiting_arg"] == a["frame"].t,
+               If(Val.is_none(x), BoolVal(True),
+                  And(n >= 1, is_kind(last, "Context"), H.getf(last, "is_exiting") == mkbool(True), H.getf(last, "obj") == NONE,
+                      H.getf(last, "is_async") == H.getf(x, "is_async"))))
+
+
+from .extract_env import CTORS as _CT, EXTRACT_BINDINGS as _EB  # noqa: E402
+REF_UNIT = Unit("C20.contexts_active_by_referents", REF, ref_setup,
+                post=[Clause("C20.referents.root_and_exiting_entry", ref_post)],
+                bindings=dict(_EB), methods=dict(STD_METHODS), ctors=dict(_CT), known_classes=["Context", "ExitingContext"],
+                invariants={(REF, "for#1"): ref_inv()}, options=dict(iter_any_seq=True), field_types={"__name__": "str"}, allowed_raise=lambda ctx: BoolVal(False),
+                assumptions=["gc.get_referents(root) lists what the frame / generator refers to (interpreter behaviour: which references the "
+                             "interpreter keeps during enter/exit is decided by the bounded leg only)",
+                             "a bound method's __func__ is a function with a str __name__"])
+
+
+# ------------------------------------------------------------------------------------------------ _contexts_active_by_trickery
+# The join of C01/C08: the with-blocks of the live block stack (inspect_frame), in order, each paired with the static
+# description of its `with` statement (analyze_with_blocks) and with the manager found in the stack slot below the block's
+# level; plus the entry for a context whose __exit__ is running; plus the local-variable fallback for names.
+TRK = LL + "_contexts_active_by_trickery"
+CTX_FIELDS = ["obj", "is_async", "is_exiting", "varname", "start_line", "description", "inner_stack", "children", "hide"]
+register_class("FrameDetails")
+register_class("FinallyBlock")
+items_key = z3.Function("items_key", Val, z3.IntSort(), Val)       # k-th key of dict d in iteration order
+items_n = z3.Function("items_n", Val, z3.IntSort())
+
+
+def dc_replace(ex, p, args, kwargs, node):
+    """dataclasses.replace(ctx, **changes) (assumed library contract): a new Context, every field copied except the changed ones"""
+    src = args[0]
+    if len(args) != 1 or any(k not in CTX_FIELDS for k in kwargs):
+        raise Unsupported("replace() shape")
+    ex.oblig("C01.join.replace_on_context", "safety", p, is_kind(src.t, "Context"))
+    vals = {f: (kwargs[f].t if f in kwargs else p.getf(src.t, f)) for f in CTX_FIELDS}
+    o = p.new_obj("Context", **vals)
+    p.ghost["replaced"] = p.ghost.get("replaced", ()) + ((o, src.t, tuple(sorted(kwargs))),)
+    return [("ok", p, SV(o, ty="Context"))]
+
+
+def info_entry_ok(H, v):
+    """what analyze_with_blocks puts in its table (its own contract; the analysis itself is decided by the bounded legs)"""
+    return And(is_kind(v, "Context"), Val.a(v) >= 0, H.getf(v, "obj") == NONE, H.getf(v, "is_exiting") == mkbool(False),
+               Val.is_boolv(H.getf(v, "is_async")), Or(Val.is_none(H.getf(v, "varname")), is_exact_kind(H.getf(v, "varname"), "str")))
+
+
+def trk_setup(ex, p):
+    frame = sym_ref(p, "frame", "frame")
+    G = p.ghost
+    def awb(ex_, p_, args, kw, node):
+        d = sym_ref(p_, "with_block_info", "dict")
+        H0 = p_.snap()
+        p_.add_dschema(d.t, lambda pth, kk: Implies(H0.dhas(d.t, kk), info_entry_ok(H0, H0.dget(d.t, kk))))
+        p_.ghost["info"] = d.t
+        p_.ghost["info_arg"] = args[0].t
+        return [("ok", p_, SV(d.t, ty="dict"))]
+    def insp(ex_, p_, args, kw, node):
+        fd = sym_ref(p_, "frame_details", "FrameDetails")
+        blocks = sym_seq(p_, "fd_blocks", "list")
+        stack = sym_seq(p_, "fd_stack", "list")
+        p_.setf(fd.t, "blocks", blocks.t)
+        p_.setf(fd.t, "stack", stack.t)
+        H0 = p_.snap()
+        # inspect_frame's own postcondition (unit C02.trim / C01.chain): every block is a FinallyBlock with int handler and a
+        # level inside the value stack
+        p_.add_schema(blocks.t, lambda pth, j: Implies(And(j >= H0.lo_(blocks.t), j < H0.hi_(blocks.t)),
+                                                       And(is_kind(H0.raw(blocks.t, j), "FinallyBlock"), Val.a(H0.raw(blocks.t, j)) >= 0,
+                                                           Val.is_intv(H0.getf(H0.raw(blocks.t, j), "handler")),
+                                                           Val.is_intv(H0.getf(H0.raw(blocks.t, j), "level")),
+                                                           Val.i(H0.getf(H0.raw(blocks.t, j), "level")) >= 1,
+                                                           Val.i(H0.getf(H0.raw(blocks.t, j), "level")) <= H0.length(stack.t))))
+        p_.pc.append(H0.lo_(stack.t) == 0)
+        p_.pc.append(H0.lo_(blocks.t) == 0)
+        p_.ghost.update(blocks=blocks.t, stack=stack.t, insp_arg=args[0].t, H_insp=H0)
+        return [("ok", p_, SV(fd.t, ty="FrameDetails"))]
+    def cec(ex_, p_, args, kw, node):
+        x = fresh("exiting")
+        H0 = p_.snap()
+        # currently_exiting_context's own contract: the cleanup offset it reports is a key of the with-block table
+        p_.pc.append(Or(Val.is_none(x), And(is_kind(x, "ExitingContext"), Val.a(x) >= 0, Val.is_boolv(p_.getf(x, "is_async")),
+                                            Val.is_intv(p_.getf(x, "cleanup_offset")))))
+        p_.ghost["exiting"] = x
+        p_.ghost["exiting_arg"] = args[0].t
+        return [("ok", p_, SV(x))]
+    def items(ex_, p_, args, kw, node):
+        d = args[0]
+        n = items_n(d.t)
+        p_.pc.append(n >= 0)
+        H0 = p_.snap()
+        def elem(pth, k):
+            key = items_key(d.t, k)
+            pth.pc.append(Implies(And(k >= 0, k < n), And(H0.dhas(d.t, key), is_exact_kind(key, "str"), Val.a(key) >= 0)))
+            return ex_.make_tuple(pth, [SV(key, ty="str"), SV(pth.dget(d.t, key, H0))])
+        return [("ok", p_, SV(fresh("items"), special=("custom", n, elem)))]
+    fl = p.getf(frame.t, "f_locals")
+    p.pc += [is_exact_kind(fl, "dict"), Val.a(fl) >= 0]           # frame.f_locals is a dict (interpreter contract)
+    ex.unit.bindings.update({"analyze_with_blocks": awb, "inspect_frame": insp, "currently_exiting_context": cec, "replace": dc_replace})
+    ex.unit.methods[("dict", "items")] = items
+    p.env.update(frame=frame)
+    return dict(frame=frame)
+
+
+def trk_locals_inv():
+    """for name, value in frame.f_locals.items(): locals_by_id[id(value)] = name"""
+    def qf(ctx):
+        return ctx.v("locals_by_id") == ctx.v0("locals_by_id")
+    def per_key(ctx, pth, kk):
+        # every entry maps id(v) to the name of a local whose value IS v
+        d = ctx.v("locals_by_id")
+        fl = ctx.H0.getf(ctx.v0("frame"), "f_locals")
+        name = ctx.H.dget(d, kk)
+        return Implies(ctx.H.dhas(d, kk), And(is_exact_kind(name, "str"), ctx.H0.dhas(fl, name), Val.is_intv(kk),
+                                              Val.i(kk) == id_term(ctx.H0.dget(fl, name)),
+                                              obj_of_id(Val.i(kk)) == ctx.H0.dget(fl, name)))
+    return Inv("C08.locals_by_id.scan", qf=qf, dforalls=[("locals_by_id", per_key)], dicts=["locals_by_id"])
+
+
+def id_term(v):
+    return If(Val.is_ref(v), Val.a(v), id_of(v))
+
+
+def trk_fill_inv():
+    """for idx, info in enumerate(ret): fill in varname from the locals"""
+    def qf(ctx):
+        ret = ctx.v("ret")
+        return And(ret == ctx.v0("ret"), ctx.H.length(ret) == ctx.H0.length(ret), ctx.H.lo_(ret) == ctx.H0.lo_(ret), ctx.H.lo_(ret) == 0)
+    def done(ctx, pth, j):
+        ret = ctx.v("ret")
+        H, H0 = ctx.H, ctx.H0
+        old, new = H0.raw(ret, j), pth.read(ret, j, H)
+        inr = And(j >= 0, j < H.length(ret))
+        fl = H0.getf(ctx.v0("frame"), "f_locals")
+        keep = And([H.getf(new, f) == H0.getf(old, f) for f in CTX_FIELDS if f != "varname"] + [is_kind(new, "Context")])
+        vn, vo = H.getf(new, "varname"), H0.getf(old, "varname")
+        filled = If(And(Not(Val.is_none(H0.getf(old, "obj"))), Val.is_none(vo)),
+                    Or(Val.is_none(vn), And(is_exact_kind(vn, "str"), H0.dhas(fl, vn), H0.dget(fl, vn) == H0.getf(old, "obj"))),
+                    vn == vo)
+        return And(Implies(inr, And(Val.is_ref(new), Val.a(new) >= -H.alloc)),
+                   Implies(And(inr, j < ctx.k), And(keep, filled)), Implies(And(inr, j >= ctx.k), new == old))
+    return Inv("C08.varname_fill.scan", qf=qf, foralls=[("ret", done)], conts=["ret"])
+
+
+def trk_post_with(ctx, pth, j):
+    """entry j (j < number of with-blocks on the block stack): the j-th block whose handler is a with-cleanup handler"""
+    G = ctx.p.ghost
+    flt = [v for k, v in G.items() if k.startswith("filter:")]
+    if len(flt) != 1:
+        return BoolVal(False)
+    F = flt[0]
+    Hi = G["H_insp"]
+    H = ctx.H
+    ret = ctx.result.t
+    src = F["src"]
+    blk = Hi.raw(G["blocks"], src(j))
+    info = Hi.dget(G["info"], Hi.getf(blk, "handler"))
+    e = pth.read(ret, j, H)
+    slot = Hi.raw(G["stack"], Val.i(Hi.getf(blk, "level")) - 1)
+    return Implies(And(j >= 0, j < F["m"]),
+                   And(src(j) >= 0, src(j) < Hi.length(G["blocks"]), Hi.dhas(G["info"], Hi.getf(blk, "handler")),
+                       Implies(j + 1 < F["m"], src(j) < src(j + 1)),
+                       is_kind(e, "Context"), H.getf(e, "obj") == Hi.getf(slot, "__self__"),
+                       H.getf(e, "is_async") == Hi.getf(info, "is_async"), H.getf(e, "start_line") == Hi.getf(info, "start_line"),
+                       H.getf(e, "is_exiting") == mkbool(False)))
+
+
+def trk_post_complete(ctx, pth, i):
+    """no with-block of the block stack is dropped: block i with a with-cleanup handler is entry pos(i)"""
+    G = ctx.p.ghost
+    F = [v for k, v in G.items() if k.startswith("filter:")][0]
+    Hi = G["H_insp"]
+    blk = Hi.raw(G["blocks"], i)
+    pth.pc.append(F["complete"](i))        # semantics of the filter comprehension (pyvc model), stated over the CODE's test
+    return Implies(And(i >= 0, i < Hi.length(G["blocks"]), Hi.dhas(G["info"], Hi.getf(blk, "handler"))),
+                   And(F["pos"](i) >= 0, F["pos"](i) < F["m"], F["src"](F["pos"](i)) == i))
+
+
+def trk_post(ctx):
+    G = ctx.p.ghost
+    F = [v for k, v in G.items() if k.startswith("filter:")][0]
+    H = ctx.H
+    Hi = G["H_insp"]
+    ret = ctx.result.t
+    x = G["exiting"]
+    n = H.length(ret)
+    last = ctx.p.read(ret, H.lo_(ret) + n - 1, H)
+    info = Hi.dget(G["info"], Hi.getf(x, "cleanup_offset"))
+    return And(G["info_arg"] == Hi.getf(ctx.args["frame"].t, "f_code"), G["insp_arg"] == ctx.args["frame"].t, G["exiting_arg"] == ctx.args["frame"].t,
+               F["n"] == Hi.length(G["blocks"]),
+               If(Val.is_none(x), n == F["m"],
+                  And(n == F["m"] + 1, is_kind(last, "Context"), H.getf(last, "is_exiting") == mkbool(True), H.getf(last, "obj") == NONE,
+                      H.getf(last, "is_async") == Hi.getf(info, "is_async"), H.getf(last, "start_line") == Hi.getf(info, "start_line"))))
+
+
+def trk_post_varname(ctx, pth, j):
+    """C08: a name is either the one the with statement binds or, failing that, a local whose value IS the manager; never a
+    name for the placeholder of an exiting context"""
+    G = ctx.p.ghost
+    F = [v for k, v in G.items() if k.startswith("filter:")][0]
+    Hi = G["H_insp"]
+    H = ctx.H
+    ret = ctx.result.t
+    e = pth.read(ret, j, H)
+    vn = H.getf(e, "varname")
+    blk = Hi.raw(G["blocks"], F["src"](j))
+    static = Hi.getf(Hi.dget(G["info"], Hi.getf(blk, "handler")), "varname")
+    fl = Hi.getf(ctx.args["frame"].t, "f_locals")
+    return Implies(And(j >= 0, j < F["m"]),
+                   If(Not(Val.is_none(static)), vn == static,
+                      Or(Val.is_none(vn), And(Not(Val.is_none(H.getf(e, "obj"))), Hi.dhas(fl, vn), Hi.dget(fl, vn) == H.getf(e, "obj")))))
+
+
+TRK_UNIT = Unit("C01.contexts_active_by_trickery", TRK, trk_setup,
+                post=[Clause("C01.join.wiring_and_exiting_entry", trk_post),
+                      Clause("C01.join.entry_is_jth_with_block", lambda ctx: trk_post_with(ctx, ctx.p, fresh_int("jsk"))),
+                      Clause("C01.join.no_with_block_dropped", lambda ctx: trk_post_complete(ctx, ctx.p, fresh_int("isk"))),
+                      Clause("C08.join.varname_static_else_identical_local", lambda ctx: trk_post_varname(ctx, ctx.p, fresh_int("jsk")))],
+                bindings=dict(_EB), methods=dict(STD_METHODS), ctors=dict(_CT), known_classes=["Context", "ExitingContext"],
+                invariants={(TRK, "for#1"): trk_locals_inv(), (TRK, "for#2"): trk_fill_inv()},
+                field_types={"f_locals": "dict", "varname": None}, options=dict(iter_any_seq=True),
+                allowed_raise=lambda ctx: BoolVal(True),
+                assumptions=["analyze_with_blocks / inspect_frame / currently_exiting_context stand for their own contracts here "
+                             "(table of obj-less Context descriptions keyed by handler offset; blocks with level inside the stack); "
+                             "inspect_frame has its own unit, the other two are decided by the bounded G1 legs only",
+                             "dataclasses.replace copies every field it is not given", "dict.items() iterates the (key, value) pairs of the dict",
+                             "id() is injective on live objects"])
+
+UNITS = [CAF_UNIT, STE_UNIT, REF_UNIT, TRK_UNIT]
